@@ -33,6 +33,17 @@ Theorem C02_receipt_unsegmented :
              /\ h_deliv s' = ddel (rc_id r) (h_deliv s) /\ h_corr s' = h_corr s.
 Proof. exact receipt_unsegmented. Qed.
 
+(* whatever integer the receipt text carries as 'err' (the theorems below speak of codes below the internal status markers): a receipt
+   is handled exactly like the one that carries the booked code, which always lies in that range *)
+Theorem C02_any_error_code :
+  (forall s r b, handle_receipt s r b = handle_receipt s (booked r) b)
+  /\ (forall r, 0 <= rc_err (booked r) < STATUS_SENT)
+  /\ (forall r, 0 <= rc_err r < STATUS_SENT -> booked r = r).
+Proof.
+  split; [exact receipt_booked|]. split; [intros r; apply receipt_code_range|].
+  intros [u i e] H. unfold booked. cbn [rc_uid rc_id rc_err] in *. rewrite (receipt_code_id _ H). reflexivity.
+Qed.
+
 (* unknown ids and receipts without id are handed over with empty identity; nothing changes *)
 Theorem C02_receipt_unknown :
   (forall s r, dget (rc_id r) (h_deliv s) = None -> handle_receipt s r true = (s, [HReceipt (rc_uid r) 0]))
